@@ -61,7 +61,7 @@ Lemma incr_result_in_range d k inc o d' :
 Proof.
   intros Hi. unfold eng_incr_by. destruct (get_entry d k) as [e|].
   - destruct (e_val e); try (intros H; inversion H; subst; exact I).
-    destruct (parse_i64 b); [|intros H; inversion H; subst; exact I].
+    destruct (parse_canonical b); [|intros H; inversion H; subst; exact I].
     destruct (in_i64 (z + inc)) eqn:E; intros H; inversion H; subst; [exact E|exact I].
   - intros H; inversion H; subst. exact Hi.
 Qed.
